@@ -36,8 +36,10 @@ for _s, (_d, _u) in SLOTS.items():
 # library entry points a quantity of a given dimension can be passed to (parameter table, DESIGN appendix A)
 LIBCALLS = {
     "Distance": ["atmo_altitude", "wind_until", "weapon_sight_height", "weapon_twist", "dm_diameter", "dm_length",
-                 "sight_scale", "gstep", "atmo_icao", "vacuum_altitude"],
-    "Angular": ["shot_look", "shot_cant", "shot_relative", "wind_direction", "weapon_zero", "sight_click"],
+                 "sight_scale", "gstep", "atmo_icao", "vacuum_altitude", "fire_range", "fire_step", "zero_distance",
+                 "danger_at", "danger_height", "sight_target_distance", "index_at_distance"],
+    "Angular": ["shot_look", "shot_cant", "shot_relative", "wind_direction", "weapon_zero", "sight_click",
+                "danger_look", "sight_correction"],
     "Velocity": ["ammo_mv", "wind_velocity", "bcpoint_v", "powder_sens_v"],
     "Temperature": ["atmo_temperature", "ammo_powder_temp", "atmo_powder_t", "vel_for_temp", "powder_sens_t"],
     "Pressure": ["atmo_pressure"],
@@ -141,7 +143,36 @@ def _libcall(name, q):
     dm = lambda **kw: pb.DragModel(0.3, pb.TableG7, **kw)
     ammo = lambda **kw: pb.Ammo(dm(), **({"mv": U.FPS(2700)} | kw))
     wpn = pb.Weapon(U.Inch(2))
+    def solver(kind):
+        """the computations themselves, on a coarse calculator; only for magnitudes that make a short computation"""
+        feet = abs(q.raw_value) / 12.0 if isinstance(q, pb.Distance) else None
+        calc = pb.Calculator(_config={"max_calc_step_size_feet": 16.0})
+        shot = pb.Shot(wpn, ammo())
+        if kind == "fire_range":
+            return calc.fire(shot, q, U.Yard(100)) if 30 <= feet <= 3000 else "skipped"
+        if kind == "fire_step":
+            return calc.fire(shot, U.Yard(200), q) if 10 <= feet <= 600 else "skipped"
+        if kind == "zero_distance":
+            return calc.barrel_elevation_for_target(shot, q) if 30 <= feet <= 1500 else "skipped"
+        hit = calc.fire(shot, U.Yard(300), U.Yard(30), extra_data=True)
+        if kind == "danger_at":
+            return hit.danger_space(q, U.Meter(1)) if 0 <= q.raw_value <= 300 * 36 else "skipped"
+        if kind == "danger_height":
+            return hit.danger_space(U.Yard(150), q)
+        if kind == "danger_look":
+            return hit.danger_space(U.Yard(150), U.Meter(1), q)
+        if kind == "index_at_distance":
+            return hit.index_at_distance(q)
+        raise KeyError(kind)
+
     table = {
+        "fire_range": lambda: solver("fire_range"), "fire_step": lambda: solver("fire_step"),
+        "zero_distance": lambda: solver("zero_distance"), "danger_at": lambda: solver("danger_at"),
+        "danger_height": lambda: solver("danger_height"), "danger_look": lambda: solver("danger_look"),
+        "index_at_distance": lambda: solver("index_at_distance"),
+        "sight_target_distance": lambda: pb.Sight("SFP", U.Meter(100), U.Mil(0.1), U.Mil(0.1)).get_adjustment(
+            q, U.Mil(1), U.Mil(0.5), 10) if q.raw_value > 0 else "skipped",
+        "sight_correction": lambda: pb.Sight("FFP", None, U.Mil(0.1), U.Mil(0.1)).get_adjustment(U.Meter(100), q, q, 10),
         "atmo_altitude": lambda: pb.Atmo(altitude=q),
         "atmo_icao": lambda: pb.Atmo.icao(q),
         "vacuum_altitude": lambda: pb.Vacuum(altitude=q),
